@@ -259,6 +259,8 @@ def check_message(ctx, case, toks, b, tag, max_depth, budget):
         a, bb = rng.sample(ids, 2)
         desc.append(('%s > %s%s' % (a, bb, slice_str(rand_slice(rng))), None, None))
     sel = rng.choice(['', '', '@[0]', '@[-1]', '@[::2]', '@[1:]', '@[%d]' % (nsub - 1)])
+    if case.get('all_subsets'):
+        sel = rng.choice(['', '', '@[::-1]', '@[0:]'])       # every subset selected: what one subset's tree gives must not leak
     # child/attribute paths that must fail: a zero slice step, a child step from a value node, an attribute step
     # from a node without attributes (the Python evaluator is not asked about the first: cs is None)
     bad = []
@@ -385,6 +387,25 @@ def run(ctx):
         comp = rng.random() < 0.3
         cases.append({'ids': ids, 'version': 33, 'edition': 4, 'nsub': rng.choice([1, 2]), 'compressed': comp, 'forced': '-',
                       'seed': rng.randrange(1, 2 ** 32), 'maxrep': 3, 'features': {'repeated-siblings': 1}, 'shared': comp})
+    # the same flat descriptor list in every subset, but a DIFFERENT bitmap per subset (uncompressed): attributes hang
+    # on different owners from subset to subset
+    for k in range(ctx.n(24, 300)):
+        n = rng.choice([2, 3, 4])
+        els = rng.sample([1001, 1002, 12001, 10004, 11001, 2001, 4004, 5002], n)
+        zeros = rng.randint(1, n - 1)
+        op = rng.choice([222, 223, 224])
+        tail = [33007] * zeros if op == 222 else ([8023] if op == 224 else []) + [op * 1000 + 255] * zeros
+        ids = els + [op * 1000, 236000, 101000 + n, 31031] + tail
+        nsub = rng.choice([2, 3])
+        bits = [0] * zeros + [1] * (n - zeros)
+        variants = []
+        for j in range(nsub):
+            b = bits[:]
+            rng.shuffle(b)
+            variants.append('31031=' + '.'.join(map(str, b)))
+        cases.append({'ids': ids, 'version': 33, 'edition': 4, 'nsub': nsub, 'compressed': False, 'forced': '||'.join(variants),
+                      'seed': rng.randrange(1, 2 ** 32), 'maxrep': 3, 'features': {'same-labels-different-bitmaps': 1},
+                      'shared': False})
     P.attach_templates(cases)
     P.run_gen(cases)
     P.run_encode(cases)
@@ -394,6 +415,8 @@ def run(ctx):
             continue
         case = {'ids': c['ids'], 'seed': c['seed'], 'forced': c['forced'], 'nsub': c['nsub'], 'version': c['version'],
                 'edition': c['edition'], 'compressed': c['compressed']}
+        if '||' in c['forced']:
+            case['all_subsets'] = True
         for f in c['features']:
             ctx.dist[f] += 1
         check_message(ctx, case, c['toks'], e[3], 'generated', ctx.n(4, 6), ctx.n(14, 40))
